@@ -211,30 +211,43 @@ def defect_classes(pre, op):
                 if any(g.typ(y) == 'ServicePort' and s not in g.nb(y, 'connects', NS)
                        for i in ifs for (l, y) in g.peers(i)) or sub_peered_under(ifs):
                     out.append('strands')
-    if kind == 'remove_sub':
-        for ch in g.nb(a[0], 'connects', CP):
-            if g.name(ch) == a[1] and g.peers(ch):
-                out.append('strands')
-    if kind in ('remove_node', 'remove_facility', 'remove_switch'):
-        for n in g.ids(NODE):
-            if g.name(n) == a[0] and sub_peered_under(ifs_of_node(n)):
-                out.append('strands')
-    if kind == 'remove_component':
-        for c in g.nb(a[0], 'has', COMP):
-            if g.name(c) == a[1]:
-                ifs = []
-                for s in g.nb(c, 'has', NS):
-                    ifs += ifs_of_ns(s)
-                if sub_peered_under(ifs):
-                    out.append('strands')
-    if kind == 'unpeer':
-        direct = False
-        for sp in ifs_of_ns(a[0]):
-            for (l, y) in g.peers(sp):
-                if a[1] in g.nb(y, 'connects', NS) and g.typ(sp) == 'ServicePort' and g.typ(y) == 'ServicePort':
-                    direct = True
-        if not direct:
-            out.append('not-peered')
+    if kind in ('connect', 'add_ns', 'add_pm'):
+        # connect_interface derives the names of the service port and of the link from <owner node>-<interface>
+        def owner_name(i):
+            seen = 0
+            while g.typ(i) == 'SubInterface' and seen < 4:
+                ps = [j for j in g.nb(i, 'connects', CP) if g.typ(j) != 'SubInterface']
+                if len(ps) != 1:
+                    return None
+                i, seen = ps[0], seen + 1
+            ss = g.nb(i, 'connects', NS)
+            if len(ss) != 1:
+                return None
+            o = g.has_owner(ss[0])
+            if len(o) != 1:
+                return None
+            if g.cls(o[0]) == COMP:
+                o = g.has_owner(o[0])
+                if len(o) != 1:
+                    return None
+            return g.name(o[0])
+        if kind == 'connect':
+            svc, ifs = a[0], [a[1]]
+            have = [g.name(c) for c in g.nb(svc, 'connects', CP)]
+        elif kind == 'add_ns':
+            ifs, have = a[3], []
+        else:
+            ifs, have = [a[3]], []
+        links = [g.name(l) for l in g.ids(LINK)]
+        for i in ifs:
+            on = owner_name(i)
+            if on is None or g.name(i) is None:
+                continue
+            pn = on + '-' + g.name(i)
+            if pn in have or (pn + '-link') in links:
+                out.append('derived-name')
+            have.append(pn)
+            links.append(pn + '-link')
     return out
 
 
